@@ -30,6 +30,9 @@ pub struct OracleState {
     pub svc_seen: Vec<usize>,                // per slot: number of svc_log entries already judged
     pub pause_seen: bool,
     pub backoff_seen: bool,
+    /// C04: (dispatch-log length, finished count) at quiescent states in which every worker of the
+    /// full rotation had spare capacity
+    pub q_marks: Vec<(usize, usize)>,
 }
 
 impl OracleState {
@@ -53,6 +56,7 @@ impl OracleState {
             svc_seen: Vec::new(),
             pause_seen: false,
             backoff_seen: false,
+            q_marks: Vec::new(),
         }
     }
 
@@ -125,10 +129,13 @@ pub fn gen_config(prop: &str, tier: Tier, rng: &mut Rng) -> Config {
             if rng.chance(1, 4) {
                 c.listeners = vec![Lst::Tcp, Lst::Tcp];
             }
+            // pause/resume are not faults: the limit and the wake-up rule hold across them too
+            c.pause = rng.chance(1, 4);
         }
         "C04" => {
             c.workers = rng.range(1, 4) as usize;
             c.max_conns = rng.range(4, 16) as usize;
+            c.pause = rng.chance(1, 4);
             if rng.chance(1, 4) {
                 c.bitset_only = true;
                 c.max_actions = rng.range(20, 200) as usize;
@@ -571,6 +578,29 @@ pub fn at_quiescence(sim: &mut Sim) {
         }
         sh.ctx(|ctx| ctx.bump("probe.forced_stop_judged"));
     }
+    if prop == "C01" && sim.o.stop_issued && sim.o.eff_graceful == Some(true) {
+        // A worker that has seen the stop releases (closes) whatever is queued at it; at quiescence
+        // every worker has been polled since, so nothing dispatched to a live worker may still be
+        // sitting open and un-served in its queue.
+        let n = sh.conns.borrow().len();
+        for c in 0..n {
+            let queued = {
+                let conns = sh.conns.borrow();
+                let r = &conns[c];
+                r.accepted && r.calls == 0 && !r.discarded && r.stream.is_some() && r.owner.map_or(false, |s| sh.workers.borrow()[s].state == SlotState::Running)
+            };
+            if queued {
+                if !sim.closed_by_server(c) {
+                    sh.violate(Violation::new(
+                        "leaked-on-shutdown",
+                        format!("connection c{c} is queued at a worker that is shutting down and, at quiescence, is neither served nor closed"),
+                    ));
+                    return;
+                }
+                sh.ctx(|ctx| ctx.bump("probe.queued_conn_released_on_shutdown"));
+            }
+        }
+    }
     if sim.server.is_none() || !sh.accept_alive.get() || sim.o.stop_issued {
         return;
     }
@@ -583,6 +613,15 @@ pub fn at_quiescence(sim: &mut Sim) {
     };
     if paused || timeout || sh.armed_fault.get().is_some() {
         return;
+    }
+    if prop == "C04" && handles.len() == sh.cfg.workers {
+        let all_spare = handles.iter().all(|idx| sh.live_slot_of(*idx).map_or(false, |s| sh.in_progress(s) < sh.cfg.limit));
+        if all_spare {
+            let mark = (sh.dispatch_log.borrow().len(), sh.conns.borrow().iter().filter(|c| c.finished).count());
+            if sim.o.q_marks.last() != Some(&mark) {
+                sim.o.q_marks.push(mark);
+            }
+        }
     }
     if prop == "C03" {
         for l in 0..sh.cfg.listeners.len() {
@@ -846,6 +885,30 @@ pub async fn drain_and_final(sim: &mut Sim) {
     }
     if prop == "C04" {
         final_c04(&sh);
+        // From a quiescent state in which every worker of the full rotation has spare capacity
+        // (so the accept loop's view is up to date: nothing is in flight), the next W dispatches
+        // made before any further completion must go to W distinct workers.
+        let w = sh.cfg.workers;
+        let log = sh.dispatch_log.borrow();
+        for (start, fin) in &sim.o.q_marks {
+            if log.len() >= start + w {
+                let win = &log[*start..start + w];
+                if win.iter().all(|r| r.finished_before == *fin && r.n_handles == w) {
+                    sh.ctx(|ctx| ctx.bump("probe.rr_window_from_quiescence"));
+                    let mut idxs: Vec<usize> = win.iter().map(|r| r.idx).collect();
+                    idxs.sort();
+                    idxs.dedup();
+                    if idxs.len() != w {
+                        let seq: Vec<usize> = win.iter().map(|r| r.idx).collect();
+                        sh.violate(Violation::new(
+                            "rr-repeat",
+                            format!("after a quiescent state in which no worker was saturated, the next {w} connections went to workers {seq:?}, not to {w} distinct workers"),
+                        ));
+                        break;
+                    }
+                }
+            }
+        }
     }
     nontrivial(sim);
 }
@@ -1011,7 +1074,8 @@ pub fn required_probes(prop: &str, tier: Tier) -> Vec<&'static str> {
     match prop {
         "C02" => vec!["probe.worker_at_limit", "probe.race_window_progress"],
         "C03" => vec!["probe.quiescent_with_backlog", "probe.quiescence_judged"],
-        "C04" => vec!["probe.rr_window_checked", "probe.bitset_runs"],
+        "C01" => vec!["probe.queued_conn_released_on_shutdown", "probe.race_window_progress"],
+        "C04" => vec!["probe.rr_window_checked", "probe.rr_window_from_quiescence", "probe.bitset_runs"],
         "C05" => vec!["probe.backoff_armed", "probe.per_connection_error_handled", "cmd.pause", "cmd.resume"],
         "C06" => vec!["probe.stop_completed", "probe.graceful_stop_with_connections", "probe.forced_stop_with_connections", "probe.forced_stop_judged", "probe.second_stop"],
         "C07" => vec!["probe.call_after_ready_round", "probe.service_restarted"],
